@@ -59,40 +59,41 @@ type AssertStat struct {
 }
 
 type Path struct {
-	prefix       []Dec
-	pos          int
-	trace        []Dec
-	pc           []*Term
-	facts        map[*Term]bool
-	globals      map[*ssa.Global]*value
-	steps        int
-	depth        int
-	inInit       int
-	events       []Event
-	nchan        int
-	inputs       []*InputVar
-	tagCount     map[string]int
-	labels       map[string]string
-	covers       map[string]bool
-	side         map[*value]interface{} // stub state keyed by object address
-	opaqueN      int
-	rendered     map[string][]Atom
-	files        map[string]*vfile
-	notExistErrs []*value
-	days         map[string]*dayInfo
-	dayByExt     map[*Term]string
-	nowN         int
-	pfSeen       map[*Term]bool
-	pfTokens     []*Term // presentation preference: accepted tokens are plain decimals
-	opaqueIDs    map[string]int
-	tmplData     []value
-	nViol        int
-	chooseN      int // number of non-forced choose decisions (shape)
-	stdout       value
-	tz           int64 // local time zone offset of this path (seconds east of UTC)
-	tzSet        bool
-	nums         map[string]*Term // number tokens written by verifNum
-	env          map[string]value
+	prefix         []Dec
+	pos            int
+	trace          []Dec
+	pc             []*Term
+	facts          map[*Term]bool
+	globals        map[*ssa.Global]*value
+	steps          int
+	depth          int
+	inInit         int
+	events         []Event
+	nchan          int
+	inputs         []*InputVar
+	tagCount       map[string]int
+	labels         map[string]string
+	covers         map[string]bool
+	side           map[*value]interface{} // stub state keyed by object address
+	opaqueN        int
+	rendered       map[string][]Atom
+	files          map[string]*vfile
+	notExistErrs   []*value
+	days           map[string]*dayInfo
+	dayByExt       map[*Term]string
+	nowN           int
+	pfSeen         map[*Term]bool
+	pfTokens       []*Term // presentation preference: accepted tokens are plain decimals
+	opaqueIDs      map[string]int
+	tmplData       []value
+	nViol          int
+	chooseN        int // number of non-forced choose decisions (shape)
+	stdout         value
+	sigpipeIgnored bool
+	tz             int64 // local time zone offset of this path (seconds east of UTC)
+	tzSet          bool
+	nums           map[string]*Term // number tokens written by verifNum
+	env            map[string]value
 }
 
 type PathResult struct {
